@@ -36,8 +36,9 @@ func (m *Method) Call(s *Scope, args List, depth int) Object {
 			loc := &WhopLoc{Method: m, Current: i}
 			ws := s.NewScope()
 			ws.Let("~whopper-location~", loc)
-			(c.Wrap.(*Lambda)).Closure = ws
-
+			// The wrapper is called in ws which is enough for it to find the
+			// location. The wrapper itself is shared by all calls, also
+			// concurrent ones, and is not modified.
 			return c.Wrap.Call(ws, args, depth+1)
 		}
 	}
@@ -72,7 +73,6 @@ func (m *Method) BoundCall(s *Scope, depth int) Object {
 			loc := &WhopLoc{Method: m, Current: i}
 			ws := s.NewScope()
 			ws.Let("~whopper-location~", loc)
-			(c.Wrap.(*Lambda)).Closure = ws
 			if bc, _ := c.Wrap.(BoundCaller); bc != nil {
 				return bc.BoundCall(ws, depth)
 			}
